@@ -107,6 +107,16 @@ def withSuffix (p : PPath) (ext : Name) : Except Exc PPath :=
     let name' := if old = [] then p.name ++ ext else p.name.take (p.name.length - old.length) ++ ext
     .ok ⟨p.root, p.parts.dropLast ++ [name']⟩
 
+/-- `'/'.join(parts)` -/
+def joinSlash : Comps → List Ch
+  | [] => []
+  | [c] => c
+  | c :: d :: rest => c ++ SLASH :: joinSlash (d :: rest)
+
+/-- `str(path)` : root slashes + parts joined by `/`; the empty relative path prints as `.` -/
+def strOf (p : PPath) : List Ch :=
+  if p.root = 0 ∧ p.parts = [] then dot else List.replicate p.root SLASH ++ joinSlash p.parts
+
 /-- `base.joinpath(tp)` for an already parsed `tp`: an absolute right operand replaces the left one -/
 def join (base tp : PPath) : PPath :=
   if tp.root > 0 then tp else ⟨base.root, base.parts ++ tp.parts⟩
@@ -352,11 +362,12 @@ structure PkgConfig where
   paths : List PPath      -- `files(package).joinpath(package_path)` for each package path
   ext : Name
 
-/-- the `for path in self.paths` loop: `try: is_file() except OSError: continue` -/
+/-- the `for path in self.paths` loop: `source_path = path.joinpath(str(template_path))` — the target goes
+through its string form and is parsed again — then `try: is_file() except OSError: continue` -/
 def pkgSearch (fs : FS) (tp : PPath) : List PPath → Except Exc PPath
   | [] => .error .notFound
   | base :: more =>
-    let src := join base tp
+    let src := join base (parse (strOf tp))
     match pyIsFile fs src with
     | .error .osError => pkgSearch fs tp more
     | .error e => .error e
